@@ -174,6 +174,17 @@ def constructed(rng):
         out.append("cmpall vv %s %s" % (G.fD(*x), G.fD(*y)))
         if rng.random() < 0.3:
             out.append("minmax %s %s" % (G.fD(*x), G.fD(*y)))
+    # operands that agree in their low 32 / 64 / 96 bits (same scale, and after alignment)
+    for _ in range(40):
+        c, s = G.dec(rng)
+        if rng.random() < 0.5:
+            c = rng.choice((0, 1, -1, P10[s], -P10[s], G.small_coeff(rng, 60)))
+        for t in G.trunc_twins(rng, c):
+            out.append("cmpall vv %s %s" % (G.fD(c, s), G.fD(t, s)))
+            k = rng.randrange(0, 19 - s)
+            if abs(t) * P10[k] <= M:
+                out.append("cmpall vv %s %s" % (G.fD(c, s), G.fD(t * P10[k], s + k)))
+                out.append("cmpall vv %s %s" % (G.fD(t * P10[k], s + k), G.fD(c, s)))
     # equal values in every representation
     for _ in range(60):
         c, s = G.dec(rng)
